@@ -1,5 +1,5 @@
 PROPERTY = "C16"
-PACKAGES = ["./lastgersync"]
+PACKAGES = ["./lastgersync", "./internal/zzverifeth"]
 L = "github.com/agglayer/aggkit/lastgersync."
 OBLIGATIONS = []
 for k, bs, tiers in ((3, (0, 2), ("quick", "thorough")), (3, (1, 3, 4), ("thorough",)), (4, (2, 3, 4), ("thorough",))):
@@ -21,7 +21,14 @@ for nb, np_, start, far, tiers in ((3, 2, 0, 0, ("quick", "thorough")), (4, 3, 5
              % (nb, start, {0: "", 1: " (half of them about 1000 blocks further on)", 2: " (the L1 info syncer lags: first lookup of each root fails)"}[far], np_),
         harness=L + "ZZVerif_C16_PPDownload", params={"NB": nb, "NP": np_, "START": start, "FAR": far % 2, "LAG": far // 2}, tiers=tiers, reach=["events", "end"], time_limit_s=3000, max_paths=600000,
         bounds="%d blocks, event per block in {none, insertion, removal}, all roots; %d polls with every non-decreasing tip sequence (no progress, one block, several blocks)" % (nb, np_)))
+for nl, np_, runs, tiers in ((3, 2, 1, ("quick", "thorough")), (2, 1, 2, ("quick", "thorough")), (3, 2, 2, ("thorough",)), (4, 2, 1, ("thorough",)), (3, 3, 1, ("thorough",))):
+    OBLIGATIONS.append(dict(
+        name="C16.c FEP download loop feeding the real processor: %d L1 info leaves, %d run(s) of the downloader (restart between them) of %d polls each, arbitrary tips and arbitrary growing sets of injected roots: "
+             "query X returns an injected root with index >= X, not-found only if none" % (nl, runs, np_),
+        harness=L + "ZZVerif_C16_FEP", params={"NL": nl, "NP": np_, "RUNS": runs}, tiers=tiers, reach=["block", "found", "notfound"], time_limit_s=3000, max_paths=600000,
+        bounds="%d leaves, %d polls in all with every non-decreasing tip sequence and every monotone injection history (indexes may be skipped); all X" % (nl, np_ * runs)))
 ASSUMPTIONS = ["C16.a obligations other than the known-finding ones assume that no removal in an orphaned block concerns a root injected in a kept block (that region is known finding C16-2)", "at most one GER event per L2 block (the table's primary key; stated in the property)", "SQL model of SQLite"]
 ASSUMPTIONS += ["C16.b: the L2 node is a fake client (tips per poll, logs per range, headers); the generated contract binding is modelled (indexed arguments from the topics; natively the real binding runs); "
-                "the ticker of WaitForNewBlocks ticks whenever looked at (bounded); block hash as uninterpreted function of the header"]
-OUTSIDE = "the FEP downloader (reads contract state, not events); RPC errors inside the PP loop; reorgs between the log query and the header query (C05)"
+                "the ticker of WaitForNewBlocks ticks whenever looked at (bounded); block hash as uninterpreted function of the header",
+                "C16.c: the GER manager's globalExitRootMap read call of the generated binding is run as eth_call over the fake node (internal/zzverifeth.CallWord; natively the generated code runs); the L1 info tree is fixed during the run; roots are distinct tags"]
+OUTSIDE = "RPC errors inside the PP loop; reorgs between the log query and the header query (C05)"
